@@ -78,10 +78,34 @@ def named_ucfg(name):
 # ---------------------------------------------------------------------------------------------
 # operands
 # ---------------------------------------------------------------------------------------------
-def generic_mv(alg, keys, operand_index):
-    """Multivector over `keys` (ordered) with one fresh indeterminate per stored blade."""
-    vals = [G.var(operand_index * 100 + pos + 1) for pos in range(len(keys))]
+def generic_mv(alg, keys, operand_index, zero=()):
+    """Multivector over `keys` (ordered) with one indeterminate per stored blade.  The
+    indeterminate is named after the operand and the BLADE (not the position), so permuted or
+    zero-padded operands denote the same element; positions listed in `zero` hold an explicit 0."""
+    vals = [G.const(0) if pos in zero else G.var(operand_index * 1000 + int(k) + 1) for pos, k in enumerate(keys)]
     return MultiVector.fromkeysvalues(alg, tuple(keys), vals)
+
+
+def _num(v):
+    """JSON number spec -> python number: int, [n, d] -> Fraction, {'f': x} -> float"""
+    if isinstance(v, list):
+        return Fraction(v[0], v[1])
+    if isinstance(v, dict):
+        return float(v['f'])
+    return v
+
+
+def operand(alg, spec, operand_index):
+    """spec: a key list (generic coefficients), {'keys': [...], 'zero': [positions]} (generic with
+    explicit zeros), {'keys': [...], 'vals': [...]} (numbers: int, [n,d] fraction, {'f': float}),
+    or {'num': v} (a plain python number, not a multivector)."""
+    if isinstance(spec, dict):
+        if 'num' in spec:
+            return _num(spec['num'])
+        if 'vals' in spec:
+            return MultiVector.fromkeysvalues(alg, tuple(spec['keys']), [_num(v) for v in spec['vals']])
+        return generic_mv(alg, spec['keys'], operand_index, tuple(spec.get('zero', ())))
+    return generic_mv(alg, spec, operand_index)
 
 
 def mv_from(alg, keys, vals):
@@ -96,6 +120,12 @@ UNARY = {
     'outerexp': lambda a: a.outerexp(), 'outersin': lambda a: a.outersin(),
     'outercos': lambda a: a.outercos(), 'outertan': lambda a: a.outertan(),
     'id': lambda a: a,
+    'dual': lambda a: a.dual(), 'undual': lambda a: a.undual(),
+    # round trips and the defining relation of the Hodge dual (C05)
+    'rt_hodge': lambda a: a.hodge().unhodge(), 'rt_unhodge': lambda a: a.unhodge().hodge(),
+    'rt_polarity': lambda a: a.polarity().unpolarity(), 'rt_unpolarity': lambda a: a.unpolarity().polarity(),
+    'rt_dual': lambda a: a.dual().undual(), 'rt_undual': lambda a: a.undual().dual(),
+    'wedge_hodge': lambda a: a ^ a.hodge(),
 }
 BINARY = {
     'gp': lambda a, b: a * b, 'op': lambda a, b: a ^ b, 'ip': lambda a, b: a | b,
@@ -103,6 +133,7 @@ BINARY = {
     'cp': lambda a, b: a.cp(b), 'acp': lambda a, b: a.acp(b), 'rp': lambda a, b: a & b,
     'sw': lambda a, b: a >> b, 'proj': lambda a, b: a @ b, 'add': lambda a, b: a + b,
     'sub': lambda a, b: a - b, 'div': lambda a, b: a / b,
+    'mulinv': lambda a, b: a * b.inv(), 'rdiv': lambda a, b: a / b,
 }
 # the method spellings of the same operators (must agree with the infix ones)
 BINARY_METHOD = {
@@ -132,9 +163,22 @@ class EncodeError(Exception):
     """A value cannot be represented for TLC (too large, not rational, ...)."""
 
 
+FLOAT_DIST = [0.0]      # largest distance between a recorded float and the fraction logged for it
+
+
 def coef_to_G(v):
     if isinstance(v, G):
         return v
+    if isinstance(v, float) or type(v).__name__ in ('float64', 'float32'):
+        v = float(v)
+        if v != v or v in (float('inf'), float('-inf')):
+            raise EncodeError('non-finite float')
+        f = Fraction(v).limit_denominator(10 ** 5)
+        dist = abs(float(f) - v)
+        if dist > 1e-7 * max(1.0, abs(v)):
+            raise EncodeError('float result is not within 1e-7 of a fraction with denominator <= 10^5')
+        FLOAT_DIST[0] = max(FLOAT_DIST[0], dist)
+        return G.const(f)
     if hasattr(v, 'is_Rational') and getattr(v, 'is_Rational', False):   # sympy Integer/Rational
         return G.const(Fraction(int(v.p), int(v.q)))
     try:
@@ -154,28 +198,78 @@ def encode_mvs(mvs):
     """Encode several multivectors in one ring: returns (ring, [json mv...])."""
     recs = [mv_record(mv) for mv in mvs]
     ring = 'poly' if all(c.is_poly() for _, cs in recs for c in cs) else 'rat'
-    for _, cs in recs:
-        for c in cs:
-            if c.max_abs() >= INT_LIMIT:
-                raise EncodeError('integer too large for TLC')
-    return ring, [{'keys': k, 'coefs': [c.to_json(ring) for c in cs]} for k, cs in recs]
+    out = []
+    for k, cs in recs:
+        if ring == 'rat' and cs and all(set(c.d) == {()} for c in cs):
+            # numeric fractions: bring the coefficients of one multivector to their common
+            # denominator, so that TLC adds numerators instead of multiplying denominators up
+            from math import lcm
+            D = lcm(*[c.d[()] for c in cs])
+            js = [{'n': G._pjson({m: v * (D // c.d[()]) for m, v in c.n.items()}), 'd': [[D, []]]} for c in cs]
+            big = max([D] + [abs(v) * (D // c.d[()]) for c in cs for v in c.n.values()])
+        else:
+            js = [c.to_json(ring) for c in cs]
+            big = max([c.max_abs() for c in cs] + [0])
+        if big >= INT_LIMIT:
+            raise EncodeError('integer too large for TLC')
+        out.append({'keys': k, 'coefs': js})
+    return ring, out
 
 
-def op_event(eid, op, args, params=(), fn=None, kind='op', extra=None):
+def _magnitude_guard(op, params, mvs, nargs):
+    """TLC has 32-bit integers.  A conservative bound on every intermediate of the verdict
+    (products of the operands' and the result's numerators, products of denominators) must stay
+    below 2^31, otherwise the event is not encodable (skipped and counted, never a verdict)."""
+    S, D = [], []
+    for mv in mvs:
+        cs = [coef_to_G(v) for v in mv.values()]
+        if not cs:
+            S.append(1)
+            D.append(1)
+            continue
+        dens = [sum(abs(c) for c in g.d.values()) for g in cs]
+        nums = [sum(abs(c) for c in g.n.values()) for g in cs]
+        const = all(set(g.d) == {()} for g in cs)
+        if const:
+            from math import lcm
+            L = lcm(*[g.d[()] for g in cs])
+            S.append(max(1, sum(n * (L // g.d[()]) for n, g in zip(nums, cs))))
+            D.append(L)
+        else:
+            S.append(max(1, sum(nums)))
+            D.append(max(dens))
+    mult = abs(params[0]) + 1 if op == 'pow' and params else (3 if op in ('sw', 'proj') else 2)
+    bound = 1
+    for i, (s_, d_) in enumerate(zip(S, D)):
+        k = mult if i < nargs else 1
+        bound *= (s_ ** k) * (d_ ** k)
+    if bound >= 2 ** 31 and max(S + D) > 64:
+        raise EncodeError('intermediate integers of the certificate may exceed 32 bits in TLC')
+
+
+def op_event(eid, op, args, params=(), fn=None, kind='op', extra=None, witness=None):
     """Apply `op` through the public API and return the event record (never raises for
     exceptions of the library: they are part of the observation)."""
     raised, res = '', None
     try:
         res = (fn or (lambda *a: apply_op(op, a, params)))(*args)
+        if not isinstance(res, MultiVector):
+            raise EncodeError(f'result is {type(res).__name__}, not a multivector')
     except (EncodeError, KeyboardInterrupt):
         raise
     except Exception as e:    # noqa: BLE001 - the library's behaviour is what we record
         raised = type(e).__name__
-    mvs = list(args) + ([res] if res is not None else [])
+    if callable(witness):
+        witness = witness(raised)
+    alg0 = next(a.algebra for a in args if isinstance(a, MultiVector))
+    args = [a if isinstance(a, MultiVector) else mv_from(alg0, (0,), [a]) for a in args]
+    mvs = list(args) + ([res] if res is not None else []) + ([witness] if witness is not None else [])
     ring, enc = encode_mvs(mvs)
+    _magnitude_guard(op, params, mvs, len(args))
     ev = {'id': eid, 'kind': kind, 'op': op, 'ring': ring, 'args': enc[:len(args)],
           'params': [int(p) for p in params], 'raised': raised,
-          'res': enc[len(args)] if res is not None else {'keys': [], 'coefs': []}}
+          'res': enc[len(args)] if res is not None else {'keys': [], 'coefs': []},
+          'witness': enc[-1] if witness is not None else {'keys': [], 'coefs': []}}
     if extra:
         ev.update(extra)
     return ev
